@@ -37,7 +37,7 @@ vlib.known_findings = _known_with_proposed
 class P(vlib.Prop):
     pid = "C02"
     coq_dirs = ["Common", "C02", "Generated"]
-    coq_targets = ["C02/Properties.vo", "C02/Witness.vo", "C02/Harness.vo", "C02/PropCheck.vo"]
+    coq_targets = ["C02/Properties.vo", "C02/Witness.vo", "C02/Harness.vo", "C02/PropCheck.vo", "C02/Repaired.vo"]
     properties_module = "C02.Properties"
     properties_file = "C02/Properties.v"
     instance_obligations = []
@@ -68,7 +68,9 @@ class P(vlib.Prop):
             "on the held mutex in front of 1-3 parked consumers; 60 cases put unreadable items in front of blocked producers. "
             "Strengthening 3: in non-blocking persistent scripts every 7th Offer fails on Encoding.Marshal or on the storage "
             "write (LOfferF); after EVERY refused Offer the oracle checks that Size(), the queue contents and the hand-off set "
-            "are unchanged.")
+            "are unchanged. Round 5: Offer/Size/Capacity/Shutdown go through the real asyncQueue wrapper; 40 free-running cases "
+            "drive an asyncQueue with 1-3 consumers of its own; the Coq clause checker PropCheck.prop_ok is evaluated over the "
+            "observed history of every case.")
     trusted_base = [
         "Coq 8.16.1 kernel + vm_compute (coqc); no axioms (Print Assumptions: closed under the global context)",
         "hand-written LTS coq/C02/Model.v after memory_queue.go, persistent_queue.go (volatile half), cond.go, async_queue.go's consumer loop; tied by the correspondence run",
